@@ -606,6 +606,18 @@ pub fn static_corpus() -> Vec<FnSpec> {
             }
         }
     }
+    // invalidate_on combined with ttl / limit (a refreshed entry starts a new lifetime)
+    for &fl in &flavours {
+        for &(ttl, limit) in &[(Some(3u64), None), (Some(2), Some(2usize)), (None, Some(2))] {
+            let i = id();
+            let mut s = FnSpec::new(i, &format!("inv_{}_{:04}", fl_tag(fl), i), "inv", fl);
+            s.invalidate_on = true;
+            s.ttl = ttl;
+            s.limit = limit;
+            s.policy = Some(Policy::Lru);
+            v.push(s);
+        }
+    }
     // registry family: overlapping metadata over a pool of 6 strings
     {
         let pool = ["s0", "s1", "s2", "s3", "s4", "s5"];
